@@ -53,7 +53,7 @@ func kwhMode(args []string) {
 	}
 	generic := []string{"1px", "10%", "#fff", "red", "0.5", "1", "-1", "1s", "10ms", "none", "auto", "inherit", "initial", "left", "center", "bold", "a", "100", "1em", "x-y", "", " ",
 		" ", " ", "\u0085", "K", "İ", "\xff", "\xc2", "é", "expression(1)", "url(x)", "<", "\\", "@import", "javascript:1", ":", "("}
-	seps := []string{",", ", ", " ,", " , ", ",,", " ", "\t", "\n", ";", "/"}
+	seps := []string{",", ", ", " ,", " , ", ",,", " ", " ", " ", "  ", "\t", "\n", ";", "/"}
 	distinct := map[string]bool{}
 	done := map[string]bool{}
 	for _, r := range readTSV(*table) {
@@ -85,6 +85,12 @@ func kwhMode(args []string) {
 				b.WriteString(c)
 			}
 			vals = append(vals, b.String())
+		}
+		if d.ask("KWH "+fn+" "+hexOf("inherit")) == "ERR no-such-handler-definition" {
+			// recognised by the translator but not kept for the theorem (a recursiveCheck over sub-handlers that accept a marked character)
+			sum.Distribution["recognised-not-kept"]++
+			delete(done, fn)
+			continue
 		}
 		for _, v := range vals {
 			sum.Evaluations++
